@@ -1,2 +1,64 @@
--- driver stub for C15: replaced by the real line-protocol driver
-def main : IO Unit := pure ()
+import Bermuda.Model.Json
+import Bermuda.Model.Extend
+import Bermuda.Spec.C15
+open Lean Bermuda Bermuda.Extend
+
+def optField (j : Json) (k : String) : Option Json :=
+  match j.getObjVal? k with
+  | .ok v => if v.isNull then none else some v
+  | .error _ => none
+
+def optInt? (j : Json) (k : String) : Except String (Option Int) :=
+  match optField j k with
+  | some v => (jInt? v).map some
+  | none => .ok none
+
+def implCells? (j : Json) : Except String (Option (List Cell)) :=
+  match optField j "impl" with
+  | some v => (cellsFromJson v).map some
+  | none => .ok none
+
+def clausesToJson (l : List (String × Bool)) : Json :=
+  Json.mkObj (l.map fun (k, b) => (k, Json.bool b))
+
+def answer (model : Except Err (List Cell)) (spec : Option (List (String × Bool))) : Json :=
+  Json.mkObj [("model", exceptToJson cellsToJson model),
+              ("spec", match spec with | some l => clausesToJson l | none => Json.null)]
+
+def handle (j : Json) : Except String Json := do
+  let op ← (← j.getObjVal? "op").getStr?
+  let cells ← cellsFromJson (← j.getObjVal? "cells")
+  let t ← match Triangle.ofCells cells with
+    | .ok t => pure t
+    | .error _ => throw "input cells are not a triangle"
+  let impl ← implCells? j
+  match op with
+  | "rightTri" =>
+    let lags ← match optField j "lags" with
+      | some v => (do let a ← v.getArr?; a.toList.mapM ratFromJson).map some
+      | none => pure none
+    let unit ← (← j.getObjVal? "unit").getStr?
+    let spec := match impl, LagUnit.parse? unit with
+      | some out, some u => some (Spec.C15.rightTriSpec t lags u out)
+      | _, _ => none
+    return answer (makeRightTriangle t lags unit) spec
+  | "rightDiag" =>
+    let dates ← (← (← j.getObjVal? "dates").getArr?).toList.mapM Date.fromJson
+    let hist ← (← j.getObjVal? "hist").getBool?
+    let spec := impl.map fun out =>
+      if hist then [("valuesEmpty", Spec.C15.valuesEmpty out), ("basis", Spec.C15.basisKept t out),
+                    ("canonical", Spec.isCanonical out)]
+      else Spec.C15.rightDiagSpec t dates out
+    return answer (makeRightDiagonal t dates hist) spec
+  | "fill" =>
+    let res ← optInt? j "res"
+    let noneFlag ← (← j.getObjVal? "none").getBool?
+    return answer (fillForwardGaps t res noneFlag) (impl.map (Spec.C15.fillSpec t res noneFlag))
+  | "backfill" =>
+    let res ← optInt? j "res"
+    let statics ← (← (← j.getObjVal? "statics").getArr?).toList.mapM (·.getStr?)
+    let minLag ← jInt? (← j.getObjVal? "minLag")
+    return answer (backfill t statics res minLag) (impl.map (Spec.C15.backfillSpec t statics res minLag))
+  | o => throw s!"unknown op {o}"
+
+def main : IO Unit := serve handle
